@@ -864,7 +864,7 @@ _QMEMO = set()
 def real_steps(cfg, ex, ops, res, queries):
     """apply ops to ex with the full transition oracle after every operation; closest-K / get_peer queries after
     every operation (queries='every') or on the final state, once per distinct final table configuration and
-    worker (queries='last').  -> (number of ops applied, [(sig, what)])"""
+    work item (queries='last').  -> (number of ops applied, [(sig, what)])"""
     for step, op in enumerate(ops):
         rec = ex.apply(op)
         res.count('transitions')
@@ -950,6 +950,7 @@ def w_real(item, res):
     default = real_default()
     edits = None
     viols = []
+    _QMEMO.clear()       # per item, not per worker: the counters must not depend on how items land on workers
     for w in work:
         if w[0] == 'edits':
             found = run_real(cfg, apply_edits(default, w[1]), res, 'every' if len(w[1]) == 0 else 'last')
